@@ -17,6 +17,22 @@ PROP = "C04"
 @st.composite
 def cases(draw, tier="quick"):
     B = draw(st.sampled_from([4096, 4096, 4096, 8192, 131072]))
+    if draw(st.sampled_from([False, False, False, True])):
+        # an image that did not come from a tar archive: every inode type (sockets), xattrs on any of them
+        nodes = draw(treemodel.trees(mode="file", max_nodes=12, want_special=True, allow_newline=False, name_max=120))
+        for n in nodes:
+            if n["type"] in ("sock", "fifo", "chr", "blk", "slink") and not n.get("xattrs") and draw(st.sampled_from([False, True])):
+                n["xattrs"] = {b"user.on_" + n["type"].encode(): b"v" * draw(st.integers(1, 20))}
+        xf = [(n["path"], n["xattrs"]) for n in nodes if n.get("xattrs") and n["type"] != "hlink" and b"\r" not in n["path"]
+              and n["path"] == n["path"].strip() and not n["path"].startswith(b"#")]
+        for n in nodes:
+            if n.get("xattrs") and (n["path"], n["xattrs"]) not in xf:
+                n["xattrs"] = {}
+        go = dict(comp="gzip", X=None, B=4096, T=False, e=False, j=1, Q=None, devblk=None, defaults={}, source_date_epoch=None, xattr_styles=[0],
+                  quote_all=False, loc_style=0, packdir_mode=1)
+        s = dict(root_becomes=draw(st.sampled_from([None, None, b".", b"rootdir"])), no_xattr=draw(st.sampled_from([False, False, True])),
+                 no_hard_links=draw(st.sampled_from([False, False, True])), no_skip=False)
+        return dict(gen=True, nodes=nodes, gopts=go, xattr_file=xf or None, s2t=s)
     ar = draw(tarimg.archives(B=B))
     o = dict(comp=draw(st.sampled_from(["gzip", "xz", "lz4", "zstd", "lzma"])), B=B,
              no_keep_time=draw(st.sampled_from([False, False, True])), no_xattr=draw(st.sampled_from([False, False, True])),
@@ -171,6 +187,11 @@ def compare_tar_listing(lst, view, s, who):
             raise Violation("%s: %r -> %r, image says %r" % (who, name, g["linkname"], n["target"]), None, sig="s2t-target")
         if gt == "file" and (g["size"] != n["size"] or g["sha"] != n["sha"]):
             raise Violation("%s: %r content differs" % (who, name), None, sig="s2t-content")
+        if "xattrs" in g and not s.get("no_xattr") and gt != "hlink":
+            ex = n.get("xattrs") or {}
+            # a value with an embedded NUL or newline cannot be told apart reliably through tarfile's text interface
+            if all(b"\0" not in v and b"\n" not in v for v in list(ex.values()) + list(g["xattrs"].values())) and g["xattrs"] != ex:
+                raise Violation("%s: %r carries xattrs %r, image says %r" % (who, name, sorted(g["xattrs"])[:4], sorted(ex)[:4]), None, sig="s2t-xattr")
         if gt in ("chr", "blk"):
             dn = (g["major"] << 8 & 0xFFF00) | (g["minor"] & 0xFF) | ((g["minor"] & 0xFFF00) << 12)
             if dn != n["devno"]:
@@ -238,7 +259,63 @@ def compare_gnu_tar(tarbytes, view, s, scratch):
                             None, sig="s2t-gnutar-hl")
 
 
+def phase_s2t(img1, t1, s, sc, classes):
+    """sqfs2tar on img1 (tree t1) with options s: framing, Python tarfile and GNU tar listings against the image; returns the archive"""
+    # ---- (2) sqfs2tar
+    s2t = vcommon.tool("asan", "sqfs2tar")
+    r2 = vcommon.run([s2t] + s2t_cmd(s) + [img1], timeout=60)
+    if r2.sanitizer() or r2.timeout:
+        raise Violation("sqfs2tar: %s" % (r2.sanitizer() or "timeout"), r2.err.decode(errors="replace")[-2000:], sig="sanitizer")
+    if r2.rc != 0:
+        raise Violation("sqfs2tar failed on a tar2sqfs image: %s" % r2.err[-300:].decode(errors="replace"), None, sig="s2t-failed")
+    tb = r2.out
+    if len(tb) % 512 or tb[-1024:] != b"\0" * 1024:
+        raise Violation("sqfs2tar output is not a multiple of 512 bytes ending in two zero blocks (%d bytes)" % len(tb), None, sig="s2t-framing")
+    view = expected_tar_view(t1, s)
+    if s.get("no_xattr"):
+        view = {k: dict(v, xattrs={}) for k, v in view.items()}
+    try:
+        lst = tarimg.tarfile_listing(tb)
+    except Exception as e:
+        raise Violation("Python tarfile cannot read sqfs2tar output: %r" % e, None, sig="s2t-tarfile")
+    compare_tar_listing(lst, view, s, "Python tarfile")
+    if all(len(c) <= 255 for k in view for c in k.split(b"/")) and all(len(k) < 3000 for k in view):
+        compare_gnu_tar(tb, view, s, sc)
+        classes.append("gnutar")
+    if any(n["type"] == "sock" for n in t1.values()) and b"sock" not in r2.err.lower() and not r2.err:
+        raise Violation("sqfs2tar skipped a socket without a warning", None, sig="s2t-sock-silent")
+    return tb
+
+
+def check_gen_case(case, opts):
+    """'sqfs2tar on ANY image': images written by gensquashfs from generated trees (sockets, every inode type, xattrs on every
+    type, hostile names) instead of by tar2sqfs"""
+    classes = ["image_from_gensquashfs"]
+    s = case["s2t"]
+    with Scratch("c04g") as sc:
+        try:
+            r, img1 = packlib.run_pack(dict(mode="file", nodes=case["nodes"], opts=case["gopts"], xattr_file=case.get("xattr_file")), sc, variant="plain")
+        except OSError as e:
+            raise Inconclusive(str(e))
+        if r.rc != 0 or r.timeout:
+            raise Inconclusive("image build failed (C01's business): %s" % r.err[-200:])
+        try:
+            t1 = sqfsimg.Image(open(img1, "rb").read()).tree()
+        except sqfsimg.FormatError as e:
+            raise Inconclusive("image does not parse (C01/C03's business): %s" % e)
+        if any(b"\n" in k for k in t1):
+            raise Inconclusive("newline in a name: GNU tar listing comparison is line based")
+        phase_s2t(img1, t1, s, sc, classes)
+        if any(n["type"] == "sock" for n in t1.values()):
+            classes.append("has_socket")
+            if any(n["type"] == "sock" and n.get("xattrs") for n in t1.values()):
+                classes.append("socket_with_xattrs")
+        return CaseInfo(len(t1) >= 3, classes)
+
+
 def check_case(case, opts):
+    if case.get("gen"):
+        return check_gen_case(case, opts)
     ar, o, s = case["archive"], case["opts"], case["s2t"]
     classes = []
     try:
@@ -312,29 +389,8 @@ def check_case(case, opts):
             classes.append("base256")
         if o.get("root_becomes") is not None:
             classes.append("root_becomes")
-        # ---- (2) sqfs2tar
+        tb = phase_s2t(img1, t1, s, sc, classes)
         s2t = vcommon.tool("asan", "sqfs2tar")
-        r2 = vcommon.run([s2t] + s2t_cmd(s) + [img1], timeout=60)
-        if r2.sanitizer() or r2.timeout:
-            raise Violation("sqfs2tar: %s" % (r2.sanitizer() or "timeout"), r2.err.decode(errors="replace")[-2000:], sig="sanitizer")
-        if r2.rc != 0:
-            raise Violation("sqfs2tar failed on a tar2sqfs image: %s" % r2.err[-300:].decode(errors="replace"), None, sig="s2t-failed")
-        tb = r2.out
-        if len(tb) % 512 or tb[-1024:] != b"\0" * 1024:
-            raise Violation("sqfs2tar output is not a multiple of 512 bytes ending in two zero blocks (%d bytes)" % len(tb), None, sig="s2t-framing")
-        view = expected_tar_view(t1, s)
-        if s.get("no_xattr"):
-            view = {k: dict(v, xattrs={}) for k, v in view.items()}
-        try:
-            lst = tarimg.tarfile_listing(tb)
-        except Exception as e:
-            raise Violation("Python tarfile cannot read sqfs2tar output: %r" % e, None, sig="s2t-tarfile")
-        compare_tar_listing(lst, view, s, "Python tarfile")
-        if all(len(c) <= 255 for k in view for c in k.split(b"/")) and all(len(k) < 3000 for k in view):
-            compare_gnu_tar(tb, view, s, sc)
-            classes.append("gnutar")
-        if any(n["type"] == "sock" for n in t1.values()) and b"sock" not in r2.err.lower() and not r2.err:
-            raise Violation("sqfs2tar skipped a socket without a warning", None, sig="s2t-sock-silent")
         classes.append("s2t_ok")
         if s.get("subdirs"):
             # a selection is not meant to reproduce the image: the listing above is the whole oracle
